@@ -154,6 +154,19 @@ def gen_cases(tier, seed):
             lines.append("%s %s" % (rng.choice(["add", "add", "pop"]), hexs(rng.choice(pool))))
             lines.append(qq)
         cases.append(("k%d" % k, "\n".join(lines), "collision"))
+    # strings of arbitrary length: around and far beyond 4096 bytes (PATH_MAX is a property of paths, not of this
+    # table), sharing their first 4096 bytes and differing only after them
+    for k in range(24 if tier == "quick" else 200):
+        base = "".join(chr(rng.randint(97, 122)) for _ in range(4096))
+        pool = [base[:4095], base, base + "a", base + "b", base + "a" * rng.randint(2, 2000), base + "b" + "c" * rng.randint(1, 50)]
+        lines = ["new %d" % rng.choice([0, 1, 2, 60])]
+        qq = "q " + " ".join(hexs(v) for v in pool)
+        if rng.random() < 0.5:
+            lines.append("hash " + hexs(rng.choice(pool[2:])))
+        for _ in range(rng.randint(4, 30)):
+            lines.append("%s %s" % (rng.choice(["add", "add", "pop"]), hexs(rng.choice(pool))))
+            lines.append(qq)
+        cases.append(("l%d" % k, "\n".join(lines), "long"))
     # hash and hash-cache sequences: a growable buffer is appended to, truncated (by 0, 1, 2, ... characters, the
     # boundary of the cached-hash invalidation) and re-hashed; its view is also used as the key of set queries
     for k in range(300 if tier == "quick" else 3000):
@@ -216,7 +229,7 @@ def main(rep):
         rep.cov["exhaustive"] = False
         rep.cov["rule"] = ("all add/pop sequences of length %d over 3 strings colliding in 2- and 4-bucket tables (size guess 0 and 1), "
                            "counts of all 3 strings and is_empty observed after every step; random 50-400 step sequences over pools of "
-                           "random byte strings (bytes >= 128 included), size guesses {0,1,2,5,60}; hash and hash-cache sequences; pairs of distinct strings with the same full 64-bit hash; insertions with a failing allocation (monitor only). "
+                           "random byte strings (bytes >= 128 included), size guesses {0,1,2,5,60}; hash and hash-cache sequences; pairs of distinct strings with the same full 64-bit hash; strings of 4095 to 6100 bytes that agree on their first 4096; insertions with a failing allocation (monitor only). "
                            "non-trivial = contains at least one removal; distinct by script text") % (6 if rep.tier == "quick" else 7)
         rep.cov["samples"] = [cases[0][1].split("\n")[:8], cases[-1][1].split("\n")[:8]]
         validated = 0
